@@ -615,6 +615,60 @@ func TestReinitialisedPointKinds(t *testing.T) {
 	evid.Exhaustive("type-directed script x start record: four records of other Go kinds on one Point object", n)
 }
 
+// TestLiteralArgumentTables: the literal arguments of the builtins over their whole pools, each with subjects of the
+// kinds that make the builtin do its work: every XPath form on XML documents, every zone spelling on texts of every
+// time layout, format strings of every shape (a lone % at the end, missing and surplus verbs, widths, indexes) with
+// arguments of every kind, precisions x layouts, replacement templates.
+func TestLiteralArgumentTables(t *testing.T) {
+	n := 0
+	run := func(key, src string, fields map[string]any) {
+		stmts, err, _ := impl.Parse("main.p", src)
+		if err != nil {
+			t.Fatalf("harness: %q does not parse: %v", src, err)
+		}
+		tree, cv := conv.Stmts(stmts)
+		if cv.Err != nil {
+			t.Fatalf("harness: %v", cv.Err)
+		}
+		c := sem.NewCase(tree)
+		c.Fields = fields
+		c.Tags = map[string]string{"t1": "tv"}
+		c.Texts = map[string]string{"main.p": src}
+		runCase(t, "literal-args", c, true, key, "literal-argument-table")
+		n++
+	}
+	docs := []string{"<a id=\"1\"><b id=\"1\">t</b><b>u<c>v</c></b><!-- c --><?pi x?></a>", "<a/>", "<r xmlns:n=\"u\"><n:b>1</n:b></r>"}
+	for xi, xp := range sgen.XPaths {
+		for di, d := range docs {
+			if (xi+di)%evid.NShards() != evid.Shard() {
+				continue
+			}
+			run(fmt.Sprintf("xml/%d/%d", xi, di), fmt.Sprintf("xml(message, %s, out)\nxml(message, %s, t1)", gen.QuoteDouble(xp), gen.QuoteDouble(xp)), map[string]any{"message": d})
+		}
+	}
+	times := []string{"2021-05-27 06:54:14.760 UTC", "27/May/2021:06:54:14 +0800", "06 Jan 2017 16:16:37.000", "28 Feb 10:07:45.525", "171113 14:14:20", "2021/02/27 - 14:14:20", "Wed Jan 25 09:20:30.123456 2017", "2017-01-25 09:20:30.123 UTC",
+		"2021-05-27 06:54:14", "2021-05-27T06:54:14Z", "May 27, 2021 6:54:14 AM", "1622098454", "31/12/2021 10:00:00", "12/31/2021", "not a time", ""}
+	for zi, z := range sgen.ZoneArgs {
+		for ti, tm := range times {
+			if (zi+ti)%evid.NShards() != evid.Shard() {
+				continue
+			}
+			run(fmt.Sprintf("deftime/%d/%d", zi, ti), fmt.Sprintf("default_time(ts, %s)", gen.QuoteDouble(z)), map[string]any{"ts": tm})
+		}
+	}
+	formats := []string{"%", "%%", "%d%", "%.1f%", "%v: %v%", "%d", "%5d|%-5d|%05d", "%s %s %s", "%[2]d %[1]d", "%[9]d", "%!", "%z", "%*d", "%.*f", "%+v %#v %T", "%q %x %X %o %b %c %U", "%e %g %G", "%t", "%p", "plain", "", "%d %d", "%s", "%10.3f%%", "%[1]*[2]d", "%[3]*.[2]*[1]f", "%\x00", "%é", "%v%v%v%v%v%v%v%v%v%v", "100%"}
+	argSets := []string{"", ", 12", ", 12.5", ", 2.0", ", \"s\"", ", nil", ", true", ", [1, 2.5]", ", {\"k\": 1.5}", ", 1, 2.5, \"x\"", ", 2.5, 1", ", f1", ", message, f1, t1, nokey", ", 1.0e308 * 10.0", ", 9223372036854775807", ", -0.0"}
+	for fi, f := range formats {
+		for ai, a := range argSets {
+			if (fi+ai)%evid.NShards() != evid.Shard() {
+				continue
+			}
+			run(fmt.Sprintf("strfmt/%d/%d", fi, ai), fmt.Sprintf("strfmt(out, %s%s)\nprintf(%s%s)", gen.QuoteDouble(f), a, gen.QuoteDouble(f+"\n"), a), map[string]any{"message": "m", "f1": 2.5})
+		}
+	}
+	evid.Exhaustive("xpath x document; zone x time text; format x arguments", n)
+}
+
 func TestFixedHostile(t *testing.T) {
 	progs := []string{
 		"a = [1,2,3]\nb = a[2:1]", "inf2 = 1.0e308 * 10.0\nadd_key(k, [1, inf2])\nn = len(k)", "add_key(k, {\"a\": nan})\nx = k[0:1]", "l = [1,2,3]\nx = l[3]", "l = [1,2,3]\nl[3] = 1", "l = [1,2,3]\nx = l[-4]", "l = []\nx = l[0]", "l = [[1]]\nl[0][1] += 1", "m = {\"k\": [1]}\nx = m[\"k\"][1]", "x = \"abc\"[1:3:9223372036854775807]", ".[0]", "a = .[0] + 1", ".[0] = 1", "a.b", "a = a.b", "l = [1]\nx = l[-9223372036854775807 - 1]",
@@ -630,6 +684,7 @@ func TestFixedHostile(t *testing.T) {
 		"z = 0\nfor a in [[1,2]] { for b in a { c = b / z } }", "l1 = [1]\nfor a in \"ab\" { for b in {\"k\": 1} { if true { c = l1[5] } } }", "for a in [1] { if true { for b in [2] { for c in \"x\" { d = 1 + \"s\" } } } }",
 		"for ;; exit() { }\nadd_key(after, 1)", "for i = 0; i < 10; exit() { }", "for ; true; { }", "for ;; { }", "for x = 0; ; x += 1 { }", "for ;; { if false { } }", "for ;; { if true { } else { x = 1 } }",
 		"for i = 0; i < 3; i = i + 1 { }\nfor ;; exit() { if false { x = 1 } }", "if true { for ;; exit() { } }\nadd_key(after, 1)",
+		"xml(message, \"true()\", out)\nxml(message, \"concat('a','b')\", out)", 
 		"a = 1\na += \"s\"", "a = nil\na -= 1", "u %= 0 - 0", "l = [0]\nl[0] /= l[0]", "set_measurement(message, true)\nset_measurement(a.b, true)\nset_measurement(1 + 1)",
 	}
 	points := []map[string]any{{}, {"message": "NaN", "a": math.NaN(), "f1": math.Inf(-1), "k1": "-Infinity"}, {"message": "str", "a": int64(5), "f1": 2.5}, {"message": "hello 42", "f1": int64(1600000000)}, {"message": int64(5), "f1": "2021-05-27 06:54:14.760 UTC", "a": nil}, {"message": "\xff<a><b id=\"1\"/></a>", "k1": 1.5}}
